@@ -8,7 +8,7 @@ import numpy as np
 
 from .. import engine, refmodel as rm
 from .. import histories
-from ..histories import t_callhist        # worker task of the history harness (mc/histories.py)
+from ..histories import t_callhist, t_cross      # worker tasks of the history harness (mc/histories.py)
 
 PID = 'C20'
 MOD = 'mc.props.c20'
